@@ -251,6 +251,89 @@ def case(ctx, i, rng):
     short_vs_explicit(ctx, rng, mod)
     nested(ctx, rng, mod)
     class_change(ctx, rng, mod)
+    two_sources(ctx, rng, mod)
+
+
+def two_sources(ctx, rng, mod):
+    """A class chosen by an earlier source, then a later source that gives only init_args (short form) for that position,
+    judged against the same later source written with its class_path: positions are a plain option, an entry of a
+    Dict[str, Base] (not only the first one), an item addressed inside a class group of a subcommand."""
+    from jsonargparse import ActionConfigFile
+
+    M = mod.__name__
+    ia1 = {"SubA": {"p0": rng.randrange(9), "extra": 0.25}, "SubB": {"q": True, "p0": 5}}
+    later = {"SubA": {"extra": rng.choice([1.5, 2.5])}, "SubB": {"q": False}}
+    where = rng.choice(["dict-entry", "dict-entry", "subcommand-class-group", "subcommand-class-group-dict-entry", "plain"])
+    names = rng.sample(["k1", "k2", "k3"], rng.choice([2, 3]))
+    classes = {n: rng.choice(["SubA", "SubB"]) for n in names}
+    target = rng.choice(names)
+    spec = lambda c, ia: {"class_path": f"{M}.{c}", "init_args": dict(ia)}  # noqa: E731
+
+    def build():
+        p = ArgumentParser(exit_on_error=False)
+        p.add_argument("--cfg", action=ActionConfigFile)
+        if where in ("dict-entry",):
+            p.add_argument("--named", type=Dict[str, mod.Base])
+        elif where == "plain":
+            p.add_argument("--one", type=mod.Base)
+        else:
+            sc = p.add_subcommands()
+            fit = ArgumentParser(exit_on_error=False)
+            fit.add_class_arguments(mod.Holder, "model")
+            sc.add_subcommand("fit", fit)
+        return p
+
+    if where == "dict-entry":
+        first = {"named": {n: spec(classes[n], ia1[classes[n]]) for n in names}}
+        again = [n for n in names if n == target or rng.random() < 0.6]  # the later source may address several entries
+        second_short = {"named": {n: {"init_args": later[classes[n]]} for n in again}}
+        second_explicit = {"named": {n: spec(classes[n], later[classes[n]]) for n in again}}
+        tail = []
+        get = lambda cfg: cfg.named[target]  # noqa: E731
+    elif where == "plain":
+        c = classes[target]
+        first, second_short, second_explicit = {"one": spec(c, ia1[c])}, {"one": {"init_args": later[c]}}, {"one": spec(c, later[c])}
+        tail = []
+        get = lambda cfg: cfg.one  # noqa: E731
+    elif where == "subcommand-class-group":
+        c = classes[target]
+        first = {"fit": {"model": {"child": spec(c, ia1[c])}}}
+        second_short = {"fit": {"model": {"child": {"init_args": later[c]}}}}
+        second_explicit = {"fit": {"model": {"child": spec(c, later[c])}}}
+        tail = ["fit"]
+        get = lambda cfg: cfg.fit.model.child  # noqa: E731
+    else:
+        first = {"fit": {"model": {"child": spec("SubA", {}), "named": {n: spec(classes[n], ia1[classes[n]]) for n in names}}}}
+        again = [n for n in names if n == target or rng.random() < 0.6]
+        second_short = {"fit": {"model": {"named": {n: {"init_args": later[classes[n]]} for n in again}}}}
+        second_explicit = {"fit": {"model": {"named": {n: spec(classes[n], later[classes[n]]) for n in again}}}}
+        tail = ["fit"]
+        get = lambda cfg: cfg.fit.model.named[target]  # noqa: E731
+    outs = {}
+    for form, second in (("short", second_short), ("explicit", second_explicit)):
+        outs[form] = call(build().parse_args, [f"--cfg={json.dumps(first)}", f"--cfg={json.dumps(second)}"] + tail)
+    ctx.count("mon.two_source_short_forms")
+    ctx.count(f"st.two_sources.{where}")
+    ctx.evaluation(("two-sources", where, classes[target], names.index(target)))
+    pos = "single"
+    if where.endswith("dict-entry"):
+        pos = "first-entry" if target == again[0] else "later-entry"
+    w = dict(where=where, first=first, second_short=second_short, second_explicit=second_explicit)
+    if not outs["explicit"].accepted:
+        ctx.violation("short-forms", f"two-sources/explicit-form-rejected/{where}", dict(w, outcome=outs["explicit"].brief()))
+        return
+    if not outs["short"].accepted:
+        ctx.violation("short-forms", f"two-sources/short-form-rejected/{where}/{pos}", dict(w, outcome=outs["short"].brief()))
+        return
+    try:
+        a, b = get(outs["short"].value), get(outs["explicit"].value)
+    except Exception as ex:
+        ctx.violation("short-forms", f"two-sources/position-missing/{where}", dict(w, error=repr(ex)))
+        return
+    # the explicit form names the same class again: per the class-change rule the earlier init_args it accepts are kept as well
+    d = same(b.as_dict() if isinstance(b, Namespace) else b, a.as_dict() if isinstance(a, Namespace) else a)
+    if d:
+        ctx.violation("short-forms", f"two-sources/short-form-differs-from-explicit/{where}/{pos}", dict(w, explicit=short(b), short_form=short(a), at=d[0], why=d[1]))
 
 
 def short_vs_explicit(ctx, rng, mod):
